@@ -312,7 +312,7 @@ def avps_of_current_wire_message():
     return {"_vs": ghost_get("cur")._avps}
 
 
-@contract("bromelia.base.DiameterMessage.load", prop="C02", name="inverse")
+@contract("bromelia.base.DiameterMessage.load", prop="C02", name="inverse", also=("C04",))
 class _MLoadInverse:
     """for every sequence of messages a conformant peer may send (any header fields and command flags,
     any number of AVPs each, any number of messages), decoding their concatenated RFC 6733 encodings
